@@ -16,6 +16,9 @@ SPEC_DIR = os.path.join(VERIF, "spec")
 JAR = "/opt/veriftools/tla/tla2tools.jar:/opt/veriftools/tla/CommunityModules-deps.jar"
 
 
+MAX_CASES = 600000
+
+
 class TLCError(Exception):
     """TLC could not be run or the specification is broken (machinery failure)."""
 
@@ -160,66 +163,76 @@ def run_tlc(module, cfg_path, scratch, workers=16, env_extra=None, timeout=3600,
     if env_extra:
         env.update({k: str(v) for k, v in env_extra.items()})
     t0 = time.time()
+    outpath = tempfile.mktemp(prefix="tlcout_", suffix=".txt", dir=scratch)
     try:
-        proc = subprocess.run(cmd, cwd=SPEC_DIR, env=env, stdout=subprocess.PIPE,
-                              stderr=subprocess.STDOUT, timeout=timeout, text=True,
-                              errors="replace")
+        with open(outpath, "w") as outf:
+            proc = subprocess.run(cmd, cwd=SPEC_DIR, env=env, stdout=outf, stderr=subprocess.STDOUT, timeout=timeout)
     except subprocess.TimeoutExpired as e:
         raise TLCError("TLC timed out after %ss on %s" % (timeout, module)) from e
     finally:
         shutil.rmtree(meta, ignore_errors=True)
     res = TLCResult()
     res.wall_s = time.time() - t0
-    res.stdout = proc.stdout
     res.returncode = proc.returncode
-    for line in proc.stdout.splitlines():
-        m = _TUPLE_RE.match(line)
-        if m:
-            kind, rest = m.group(1), m.group(2)
-            vals = _parse_tla_tuple_rest(rest)
-            if kind == "CASE":
-                try:
-                    res.cases.append(json.loads(vals[0]))
-                except (ValueError, IndexError, TypeError) as e:
-                    raise TLCError("unparsable CASE line: %r" % line[:200]) from e
-            elif kind == "FAIL":
-                res.fails.append(vals)
-            else:
-                res.infos.append(vals)
-            continue
-        m = re.match(r"^(\d+) states generated, (\d+) distinct states found", line)
-        if m:
-            res.generated = int(m.group(1))
-            res.distinct = int(m.group(2))
-            continue
-        m = re.match(r"^The depth of the complete state graph search is (\d+)", line)
-        if m:
-            res.depth = int(m.group(1))
-            continue
-        m = re.match(r"^Error: Invariant (\S+) is violated", line)
-        if m:
-            res.violated = m.group(1)
-            continue
-        m = re.match(r"^Error: Action property (\S+) is violated", line)
-        if m:
-            res.violated = m.group(1)
-            continue
-        if "Temporal properties were violated" in line:
-            res.violated = res.violated or "temporal"
-            continue
-        if "Deadlock reached" in line:
-            res.violated = res.violated or "deadlock"
-            continue
-        if re.search(r"[Pp]ost-?condition", line) and ("violated" in line or "false" in line.lower()):
-            res.postcondition_failed = True
-            continue
-        m = re.match(r"^<(\w+) line \d+, col \d+ to line \d+, col \d+ of module \w+(?: \([\d ]+\))?>: (\d+):(\d+)", line)
-        if m:
-            res.coverage[m.group(1)] = res.coverage.get(m.group(1), 0) + int(m.group(3))
+    tail = []
+    ncase = 0
+    with open(outpath, errors="replace") as outf:
+        for line in outf:
+            line = line.rstrip("\n")
+            m = _TUPLE_RE.match(line)
+            if m:
+                kind, rest = m.group(1), m.group(2)
+                vals = _parse_tla_tuple_rest(rest)
+                if kind == "CASE":
+                    ncase += 1
+                    if ncase > MAX_CASES:
+                        raise TLCError("more than %d CASE lines from %s: the emission bound is too large" % (MAX_CASES, module))
+                    try:
+                        res.cases.append(json.loads(vals[0]))
+                    except (ValueError, IndexError, TypeError) as e:
+                        raise TLCError("unparsable CASE line: %r" % line[:200]) from e
+                elif kind == "FAIL":
+                    res.fails.append(vals)
+                else:
+                    res.infos.append(vals)
+                continue
+            tail.append(line)
+            if len(tail) > 120:
+                del tail[:60]
+            m = re.match(r"^(\d+) states generated, (\d+) distinct states found", line)
+            if m:
+                res.generated = int(m.group(1))
+                res.distinct = int(m.group(2))
+                continue
+            m = re.match(r"^The depth of the complete state graph search is (\d+)", line)
+            if m:
+                res.depth = int(m.group(1))
+                continue
+            m = re.match(r"^Error: Invariant (\S+) is violated", line)
+            if m:
+                res.violated = m.group(1)
+                continue
+            m = re.match(r"^Error: Action property (\S+) is violated", line)
+            if m:
+                res.violated = m.group(1)
+                continue
+            if "Temporal properties were violated" in line:
+                res.violated = res.violated or "temporal"
+                continue
+            if "Deadlock reached" in line:
+                res.violated = res.violated or "deadlock"
+                continue
+            if re.search(r"[Pp]ost-?condition", line) and ("violated" in line or "false" in line.lower()):
+                res.postcondition_failed = True
+                continue
+            m = re.match(r"^<(\w+) line \d+, col \d+ to line \d+, col \d+ of module \w+(?: \([\d ]+\))?>: (\d+):(\d+)", line)
+            if m:
+                res.coverage[m.group(1)] = res.coverage.get(m.group(1), 0) + int(m.group(3))
+    os.unlink(outpath)
+    res.stdout = "\n".join(tail)
     if res.returncode != 0 and res.violated is None and not res.postcondition_failed:
-        tail = "\n".join(proc.stdout.splitlines()[-40:])
-        res.error_text = tail
-        raise TLCError("TLC failed on %s (exit %s):\n%s" % (module, res.returncode, tail))
+        res.error_text = "\n".join(tail[-40:])
+        raise TLCError("TLC failed on %s (exit %s):\n%s" % (module, res.returncode, res.error_text))
     return res
 
 
